@@ -12,10 +12,13 @@ sys.path.insert(0, os.path.join(ROOT, 'tools'))
 import coqterm  # noqa
 
 REPO = os.environ.get('VERIF_REPO', '/repo')
-BUILD = os.path.join(ROOT, 'build')
-COQ = os.path.join(ROOT, 'coq')
-HARNESS = os.path.join(ROOT, 'harness')
+# the VERIF_* overrides exist only for tools/mutant.sh (sensitivity runs against a scratch copy of /repo)
+BUILD = os.environ.get('VERIF_BUILD', os.path.join(ROOT, 'build'))
+COQ = os.environ.get('VERIF_COQ', os.path.join(ROOT, 'coq'))
+HARNESS = os.environ.get('VERIF_HARNESS', os.path.join(ROOT, 'harness'))
 CARGO_TARGET = os.path.join(BUILD, 'cargo')
+EVIDENCE = os.environ.get('VERIF_EVIDENCE', os.path.join(ROOT, 'evidence'))
+REPLAY = os.environ.get('VERIF_REPLAY', os.path.join(ROOT, 'replay'))
 GUARD = 'reinterpretcat_vrp_verif'
 ALLOWED_AXIOMS = {
     # standard-library axioms a theorem may depend on (each use is listed in the evidence);
@@ -102,19 +105,19 @@ def cargo_env():
     return {'CARGO_TARGET_DIR': CARGO_TARGET, 'RUSTFLAGS': '--cfg %s -Awarnings' % GUARD, 'CARGO_NET_OFFLINE': 'true'}
 
 
-def build_harness(profile='dev'):
+def build_harness(binname, profile='dev'):
     """Rebuild the harness (and thereby the /repo crates it depends on by path) from the current tree."""
     with Lock('cargo'):
         lockfile = os.path.join(HARNESS, 'Cargo.lock')
         src_lock = os.path.join(REPO, 'Cargo.lock')
         if not os.path.exists(lockfile):
             shutil.copy(src_lock, lockfile)
-        cmd = ['cargo', 'build', '--offline', '--quiet'] + (['--release'] if profile == 'release' else [])
+        cmd = ['cargo', 'build', '--offline', '--quiet', '--bin', binname] + (['--release'] if profile == 'release' else [])
         rc, out = run(cmd, cwd=HARNESS, env=cargo_env(), timeout=3000)
         if rc != 0 and 'lock file' in out:
             shutil.copy(src_lock, lockfile)
             rc, out = run(cmd, cwd=HARNESS, env=cargo_env(), timeout=3000)
-    exe = os.path.join(CARGO_TARGET, 'release' if profile == 'release' else 'debug', 'vh')
+    exe = os.path.join(CARGO_TARGET, 'release' if profile == 'release' else 'debug', binname)
     return rc, out, exe
 
 
@@ -222,7 +225,7 @@ def run_harness(exe, name, cases, wd, tag='cases', timeout=3000):
             fh.write(json.dumps(c) + '\n')
     if os.path.exists(of):
         os.remove(of)
-    rc, out = run([exe, name, cf, of], timeout=timeout, env={'RAYON_NUM_THREADS': os.environ.get('RAYON_NUM_THREADS', '4')})
+    rc, out = run([exe, cf, of], timeout=timeout, env={'RAYON_NUM_THREADS': os.environ.get('RAYON_NUM_THREADS', '4')})
     res = {}
     if os.path.exists(of):
         for line in open(of):
@@ -281,7 +284,7 @@ def load_known():
 
 
 def write_replay(pid, payload):
-    d = os.path.join(ROOT, 'replay')
+    d = REPLAY
     os.makedirs(d, exist_ok=True)
     path = os.path.join(d, '%s-%s.json' % (pid, jhash(payload)))
     with open(path, 'w') as fh:
@@ -424,15 +427,15 @@ def main_check(pid, tier, seed):
     prop = importlib.import_module('props.' + pid.lower())
     wd = os.path.join(BUILD, pid)
     os.makedirs(wd, exist_ok=True)
-    os.makedirs(os.path.join(ROOT, 'evidence'), exist_ok=True)
-    evidence_path = os.path.join(ROOT, 'evidence', pid + '.json')
+    os.makedirs(EVIDENCE, exist_ok=True)
+    evidence_path = os.path.join(EVIDENCE, pid + '.json')
     verdict = Verdict(pid)
     known = load_known()
     stats = {'evaluations': 0, 'nontrivial': set(), 'samples': [], 'traces': 0, 'dist': {}, 'seed': seed,
              'known_samples': {}}
 
     # 1. rebuild implementation side from the current tree
-    rc, out, exe = build_harness()
+    rc, out, exe = build_harness(prop.HARNESS)
     if rc != 0:
         log(out[-4000:])
         log('INFRASTRUCTURE: harness / repository does not build; no verdict')
@@ -542,7 +545,7 @@ def main_replay(pid, path):
     prop = importlib.import_module('props.' + pid.lower())
     wd = os.path.join(BUILD, pid)
     os.makedirs(wd, exist_ok=True)
-    rc, out, exe = build_harness()
+    rc, out, exe = build_harness(prop.HARNESS)
     if rc != 0:
         log(out[-3000:])
         return 2
@@ -577,7 +580,10 @@ def main_setup():
         print(out[-5000:])
         return 1
     log('coq build %.1fs' % (time.time() - t0))
-    rc, out, exe = build_harness()
+    with Lock('cargo'):
+        if not os.path.exists(os.path.join(HARNESS, 'Cargo.lock')):
+            shutil.copy(os.path.join(REPO, 'Cargo.lock'), os.path.join(HARNESS, 'Cargo.lock'))
+        rc, out = run(['cargo', 'build', '--offline', '--quiet', '--bins'], cwd=HARNESS, env=cargo_env(), timeout=3000)
     if rc != 0:
         print(out[-5000:])
         return 1
